@@ -240,6 +240,14 @@ example :
                          .deliverBA 1 0]) = 20 := by
   decide +kernel
 
+/-- **Channel messages name the peer's id.**  Nowhere in class Channel is a message addressed with our own
+    `chanid` (`add_int(self.chanid)`), only with `remote_chanid` (counts from the AST of channel.py on this run).
+    The model's links deliver to "the other side", which presupposes this: an acknowledgement addressed to our
+    own id never reaches the sender and its window is not replenished. -/
+theorem messages_name_the_peers_id :
+    PV.Generated.ChanLock.ownIdInMessages = 0 ∧ 0 < PV.Generated.ChanLock.remoteIdInMessages := by
+  decide
+
 /-! ## several parked senders: nobody is left asleep (notify_all vs notify) -/
 
 /-- how the code wakes sleepers, read from the table generated from the AST of channel.py on this run: a call
